@@ -67,6 +67,9 @@ type c02Scenario struct {
 	// per assigned vBucket (cyclic): the collection-aware sequence-number query answers this percentage of the vBucket's
 	// high seqno (other collections / system events were written after the configured collections' last item); 100 = same
 	CollPct []int `json:"coll_pct,omitempty"`
+	// the configured collections' last item is never below the stored checkpoint (otherwise it may be: a seqno-advanced or
+	// system event moved the checkpoint beyond it)
+	CollFloor bool `json:"coll_floor,omitempty"`
 }
 
 func c02DocOf(t ckTuple, uuid string) *models.CheckpointDocument {
@@ -112,6 +115,9 @@ func c02ExecOpen(sc c02Scenario) (detail string) {
 					cl.collHigh = map[uint16]uint64{}
 				}
 				cl.collHigh[vb] = h/100*pct + h%100*pct/100
+				if sc.CollFloor && cl.collHigh[vb] < stored[vb].Seq {
+					cl.collHigh[vb] = stored[vb].Seq
+				}
 			}
 		}
 		k := sc.Failover[i%len(sc.Failover)]
@@ -274,6 +280,7 @@ func TestC02_Open(t *testing.T) {
 		sc.Failover = rapid.SliceOfN(rapid.IntRange(1, 3), 1, 8).Draw(rt, "failover")
 		if rapid.Bool().Draw(rt, "colls") {
 			sc.CollPct = rapid.SliceOfN(rapid.SampledFrom([]int{100, 0, 50, 99, 10}), 1, 4).Draw(rt, "collpct")
+			sc.CollFloor = rapid.IntRange(0, 2).Draw(rt, "collfloor") != 0
 		}
 		journal("C02", "c02open", sc)
 		d := c02ExecOpen(sc)
